@@ -441,4 +441,126 @@ example :
     ∧ Spec.treeOK .always Ctx.zero nodes ((runTree (build 0 .always) Ctx.zero nodes []).map Spec.obsOf) = false := by
   decide
 
+/-! ## provider.go: option / environment / default precedence of the provider's sampler -/
+
+private theorem foldl_withSampler (opts : List (Option Sampler)) (init : Option Sampler) :
+    opts.foldl withSampler init =
+      match opts.reverse.find? (·.isSome) with
+      | some (some s) => some s
+      | _ => init := by
+  induction opts generalizing init with
+  | nil => rfl
+  | cons o rest ih =>
+    rw [List.foldl_cons, ih, List.reverse_cons, List.find?_append]
+    cases h : rest.reverse.find? (·.isSome) with
+    | some x =>
+      cases x with
+      | some s => simp
+      | none => have := List.find?_some h; simp at this
+    | none => cases o <;> simp [withSampler]
+
+/-- **the provider's sampler**: the LAST non-nil `WithSampler` option wins (a `WithSampler(nil)` anywhere is ignored);
+without one, the sampler `OTEL_TRACES_SAMPLER` names; without that, `ParentBased(AlwaysSample())`; an error is handed
+to the global handler exactly when the environment was set and not understood — for every option list and every
+environment (`Spec.providerRef` is also the oracle of the `prov` lines) -/
+theorem provider_sampler_precedence (env : Option Sampler × EnvErr) (opts : List (Option Sampler)) :
+    Spec.providerOK env opts (providerSampler env opts) = true := by
+  simp only [Spec.providerOK, Spec.providerRef, providerSampler, foldl_withSampler, beq_iff_eq]
+  cases h : opts.reverse.find? (·.isSome) with
+  | some x =>
+    cases x with
+    | some s => simp
+    | none => have := List.find?_some h; simp at this
+  | none => cases env.1 <;> simp [withSampler, parentBasedDefault]
+
+/-- the option overrides the environment, whatever the environment says (even an erroneous one) -/
+theorem provider_last_option_wins (env : Option Sampler × EnvErr) (opts : List (Option Sampler)) (s : Sampler)
+    (nils : Nat) : (providerSampler env (opts ++ [some s] ++ List.replicate nils none)).1 = s := by
+  simp only [providerSampler, List.foldl_append, List.foldl_cons, List.foldl_nil, withSampler]
+  induction nils with
+  | zero => simp
+  | succ n ih => simp [List.replicate_succ', List.foldl_append, withSampler] at ih ⊢; exact ih
+
+/-- `WithSampler(nil)` changes nothing, wherever it stands -/
+theorem provider_nil_option_ignored (env : Option Sampler × EnvErr) (a b : List (Option Sampler)) :
+    providerSampler env (a ++ none :: b) = providerSampler env (a ++ b) := by
+  simp [providerSampler, List.foldl_append, withSampler]
+
+/-- no option, nothing (usable) in the environment: `ParentBased(AlwaysSample())` — a child follows its parent's
+sampled flag, a root is sampled; an unsupported sampler name is reported and gives the same default -/
+theorem provider_default (e : EnvErr) (nils : Nat) (sc : Script) (psc : Ctx) (tid : Bytes) :
+    (providerSampler (none, e) (List.replicate nils none)).1 = parentBasedDefault .always
+    ∧ shouldSample (providerSampler (none, e) (List.replicate nils none)).1 sc psc tid =
+        (if psc.valid then (if psc.sampled then (dRecordAndSample, psc.ts, "always") else (dDrop, psc.ts, "never"))
+         else (dRecordAndSample, psc.ts, "always"))
+    ∧ ((providerSampler (none, e) (List.replicate nils none)).2 = true ↔ e ≠ .ok) := by
+  have h1 : (providerSampler (none, e) (List.replicate nils none)).1 = parentBasedDefault .always := by
+    have := provider_sampler_precedence (none, e) (List.replicate nils none)
+    simp only [Spec.providerOK, Spec.providerRef, beq_iff_eq] at this
+    rw [this]
+    simp [parentBasedDefault]
+  refine ⟨h1, ?_, ?_⟩
+  · rw [h1, parent_based_follows_parent]; simp [shouldSample]
+  · simp [providerSampler]
+
+/-- non-vacuity: an unsupported name in the environment, two options, the second one nil -/
+example : providerSampler (samplerFromEnv (some (str "jaeger_remote")) false .err 0) [some .never, none]
+    = (.never, true) := by decide
+example : providerSampler (samplerFromEnv (some (str "always_off")) false .err 0) [none]
+    = (.never, false) := by decide
+
+/-! ## tracer.go: SamplingParameters and SamplingResult.Attributes -/
+
+/-- **the sampler is shown the start configuration as given**: name, RAW span kind (not yet validated), the start
+attributes and the links, whatever it then decides -/
+theorem sampler_sees_start_config (kind : Nat) (name : Bytes) (cfg : List AttrKV) (nLinks dec : Nat) (sa : List AttrKV) :
+    let o := startParams kind name cfg nLinks dec sa
+    o.seenName = name ∧ o.seenKind = kind ∧ o.seenAttrs = cfg ∧ o.seenLinks = nLinks ∧ o.recording = isRecording dec :=
+  ⟨rfl, rfl, rfl, rfl, rfl⟩
+
+/-- a recording span carries the VALIDATED kind: the five defined kinds as they are, everything else Internal -/
+theorem span_kind_validated (kind : Nat) (name : Bytes) (cfg : List AttrKV) (nLinks dec : Nat) (sa : List AttrKV)
+    (hr : isRecording dec = true) :
+    (startParams kind name cfg nLinks dec sa).spanKind = (if kind = 0 ∨ kind > 5 then 1 else kind) := by
+  simp only [startParams, hr, if_true, validateKind]
+  by_cases h : 1 ≤ kind ∧ kind ≤ 5
+  · have : ¬ (kind = 0 ∨ kind > 5) := by omega
+    simp [h, this]
+  · have : kind = 0 ∨ kind > 5 := by omega
+    simp [h, this]
+
+/-- **the sampler's attributes are set first, the start options' after them**: under every key a reader of the started
+span finds the LAST value set in the order sampler attributes, start attributes -/
+theorem start_attribute_values (sa cfg : List AttrKV) (k : Nat) :
+    getKV (startAttrs sa cfg) k = Spec.lastValue (sa ++ cfg) k := by
+  unfold startAttrs
+  rw [getKV_foldl]
+  cases Spec.lastValue (sa ++ cfg) k <;> simp [getKV]
+
+/-- … so a start option overrides the sampler's attribute of the same key, and a key only the sampler sets is kept -/
+theorem start_option_overrides_sampler_attribute (sa cfg : List AttrKV) (k : Nat) :
+    (∀ v, Spec.lastValue cfg k = some v → getKV (startAttrs sa cfg) k = some v) ∧
+    (Spec.lastValue cfg k = none → getKV (startAttrs sa cfg) k = Spec.lastValue sa k) := by
+  rw [start_attribute_values]
+  simp only [Spec.lastValue, List.reverse_append, List.find?_append]
+  constructor
+  · intro v hv
+    cases h : cfg.reverse.find? (·.1 == k) with
+    | some x => rw [h] at hv; simpa using hv
+    | none => rw [h] at hv; simp at hv
+  · intro hn
+    cases h : cfg.reverse.find? (·.1 == k) with
+    | some x => rw [h] at hn; simp at hn
+    | none => simp
+
+example : startAttrs [(1, 10), (2, 20)] [(2, 21), (3, 30), (2, 22)] = [(1, 10), (2, 22), (3, 30)] := by decide
+
+/-- the full oracle of the `sparams` lines (distinct keys, order by first occurrence) — evaluated on every line, not
+proved -/
+def start_params_ok_statement : Prop :=
+  ∀ (kind : Nat) (name : Bytes) (cfg : List AttrKV) (nLinks dec : Nat) (sa : List AttrKV),
+    let o := startParams kind name cfg nLinks dec sa
+    Spec.startParamsOK kind name cfg nLinks dec sa o.seenName o.seenKind o.seenAttrs o.seenLinks o.recording o.spanKind
+      o.attrs = true
+
 end Otel.C09
